@@ -147,6 +147,12 @@ def commands_for(facade, rng, quick):
         d = spa.accessors[p._user_demand["demand"]]
         for mode in p.modes:
             out.append((p, "set_mode", mode, d, d.items.index(mode), 0))
+    # a second pass: every other pump has been left in its last (running) mode by now, so the demand being commanded
+    # shares its byte with fields that are not zero
+    for p in facade.pumps:
+        d = spa.accessors[p._user_demand["demand"]]
+        for mode in rng.sample(list(p.modes), len(p.modes)) + [p.modes[-1]]:
+            out.append((p, "set_mode", mode, d, d.items.index(mode), 0))
     for sw in list(facade.blowers) + list(facade.lights) + ([facade.eco_mode] if facade.eco_mode is not None else []):
         acc = sw._accessor
         for cmd in ("turn_on", "turn_off", "turn_on", "turn_off", "turn_off"):
